@@ -556,6 +556,16 @@ def check_C10(ctx):
                                 groups.append((s0, len(cases)))
                     elif len(cases) - start > 1:
                         groups.append((start, len(cases)))
+    # a folded token behind (or in front of) many other option tokens, in every folding
+    fdecl = [gen.mkopt("custom", "v", custom=dict(gen.CUSTOM_FLAG)), gen.mkopt("custom", "w", custom=dict(gen.CUSTOM_FLAG))]
+    for sp in ("-v... -w...", "(-v | -w)...", "[-v...] -w..."):
+        for k_ in (30, 70, 100):
+            for front in (False, True):
+                start = len(cases)
+                for fo in foldings(["v", "v", "v"]):
+                    line = (fo + ["-w"] * k_) if front else (["-w"] * k_ + fo)
+                    cases.append({"op": "run", "env": {}, "version": None, "root": gen.mkcmd("app", decls=copy.deepcopy(fdecl), spec=sp, policy=0), "argv": line})
+                groups.append((start, len(cases)))
     res = correspond(ctx, cases, ["outcome", "trace", "values"], "respellings")
     pairs = 0
     for s, e in groups:
@@ -700,10 +710,13 @@ def check_C11(ctx):
               gen.mkopt("custom", "c", custom=dict(gen.CUSTOM_FLAG)), gen.mkopt("custom", "d", custom=dict(gen.CUSTOM_FLAG)),
               gen.mkopt("custom", "a", custom=dict(gen.CUSTOM_FLAG)), gen.mkopt("custom", "b", custom=dict(gen.CUSTOM_FLAG))]
     L1, L2 = "--abcdXefgh", "--abcdYefgh"
-    lunits = [([L1], "1"), ([L2], "2"), (["-c"], "c"), (["-d"], "d"), (["-aaaaabaaaa"], "ab"), (["-aaaaaaaaaa"], "a"), (["-a"], "a"), (["-b"], "b")]
+    ldecls += [gen.mkopt("custom", "include-srcs-files", custom=dict(gen.CUSTOM_FLAG)), gen.mkopt("custom", "include-docs-files", custom=dict(gen.CUSTOM_FLAG))]
+    P_, Q_ = "--include-srcs-files", "--include-docs-files"
+    lunits = [([L1], "1"), ([L2], "2"), (["-c"], "c"), (["-d"], "d"), (["-aaaaabaaaa"], "ab"), (["-aaaaaaaaaa"], "a"), (["-a"], "a"), (["-b"], "b"),
+              ([P_], "P"), ([Q_], "Q"), (["-aaaaaaaaabaaaaaaaaaa"], "ab")]
     lspecs = ["(%s | %s) -d [%s] [-c]" % (L2, L1, L2), "(%s | %s) %s..." % (L1, L2, L1), "[%s] [%s] -c -d %s" % (L1, L2, L1),
               "(%s | %s | -c)... -d" % (L1, L2), "[%s | %s]... -c %s" % (L1, L2, L2), "(-a | -b) -a...", "(-a | -b)... -c", "[-a]... -b -a...",
-              "(%s -c | %s) -d %s" % (L1, L2, L1)]
+              "(%s -c | %s) -d %s" % (L1, L2, L1), "(%s | %s) -b %s" % (P_, Q_, P_), "(%s | %s) -b [%s] [-c]" % (Q_, P_, Q_)]
     llines = [ls for n in (2, 3, 4) for ls in itertools.product(lunits, repeat=n)]
     lcombos = [(sp, ls) for sp in lspecs for ls in llines]
     if len(lcombos) > ctx.scale(3000, 30000):
